@@ -36,6 +36,22 @@ def call_style(case):
 
 def lib_call(fn, first, case, kw):
     style = call_style(case)
+    # the TYPE of the first argument rotates as well: the message as dict / OrderedDict / defaultdict / UserDict, the
+    # bytes as bytes / bytearray / memoryview (all of them work on the pinned tree; none is named by a property)
+    tv = (sum(f[0] for f in case['f']) // 4 + len(case['f'])) % 4
+    if isinstance(first, dict):
+        import collections
+        if tv == 1:
+            first = collections.OrderedDict(first)
+        elif tv == 2:
+            first = collections.defaultdict(str, first)
+        elif tv == 3:
+            first = collections.UserDict(first)
+    elif isinstance(first, bytes):
+        if tv == 1:
+            first = bytearray(first)
+        elif tv == 2:
+            first = memoryview(first)
     if style == 1:
         return fn(first, kw['encoding'], kw['iso_config'], kw['hex_bitmap'])
     if style == 2 and kw['encoding'] in ALIASES:
